@@ -7,6 +7,7 @@ SPEC = {
                    "6": "premises of Props/C06.federation_transparent where the harness counts the case as covered, and the theorem's instance recomputed"},
     "corr_name": "Federation.Normalize/Planner/Executor (flatten, plan_root, fed_exec, eval_ref) vs federation flattener / Planner / Executor and the harness reference evaluator",
     "coq_modules": ["Federation.Check06"],
+    "search": {"n": 3000, "timeout": 600},
     "harness_timeout": {"quick": 600, "thorough": 3000},
     "trusted_base": [
         "Coq 8.16.1 kernel and vm_compute (no native_compute); Print Assumptions: closed under the global context",
